@@ -257,3 +257,19 @@ macro_rules! vk_proof_models_fmt {
         pub fn $name() $body
     };
 }
+
+
+/// vk_proof_models plus the size-class allocator model (models/verif_alloc.rs): for harnesses in which
+/// a `Vec` grows after paths were merged (symbolic capacity => symbolic allocation size otherwise).
+#[macro_export]
+macro_rules! vk_proof_models_a {
+    ($(#[$extra:meta])* unwind $n:literal; fn $name:ident() $body:block) => {
+        $crate::vk_proof_models! {
+            $(#[$extra])*
+            #[cfg_attr(kani, kani::stub(alloc::alloc::alloc, crate::verif_alloc::alloc_stub))]
+            #[cfg_attr(kani, kani::stub(alloc::alloc::dealloc_nonnull, crate::verif_alloc::dealloc_nonnull_stub))]
+            #[cfg_attr(kani, kani::stub(alloc::alloc::realloc_nonnull, crate::verif_alloc::realloc_nonnull_stub))]
+            unwind $n; fn $name() $body
+        }
+    };
+}
